@@ -15,6 +15,8 @@ for d in sorted(glob.glob(os.path.join(VERIF, "seeded", "*", ""))):
     if not os.path.exists(os.path.join(d, "patch.diff")):
         continue
     pid = name.split("_")[0]
+    if name == "F6_prefix":        # the genuine defect F6 (a C19 violation), kept as a regression: reproduced in DESIGN §7, not by tools/mutants.py
+        pid = "C19"
     mp = os.path.join(d, "meta.json")
     meta = json.load(open(mp)) if os.path.exists(mp) else {"name": name, "breaks_property": pid}
     conf = os.path.join(VERIF, "work", "mutants", name + ".confirm")
@@ -48,6 +50,9 @@ for d in sorted(glob.glob(os.path.join(VERIF, "seeded", "*", ""))):
                    "./check <ID> --tier quick run there, everything removed afterwards)"]
     if name in NOTES:
         meta["note"] = NOTES[name]
+    if name == "F6_prefix":
+        meta["breaks_property"] = "C19"
+        meta["confirmed_by_me"] = True
     json.dump(meta, open(mp, "w"), indent=1)
     rows.append((name, pid, meta.get("confirmed_by_me"), meta.get("detected_by", []), meta.get("note", ""),
                  (open(notes).readline().strip() if os.path.exists(notes) else "")[:110]))
